@@ -68,20 +68,36 @@ fn generate_multirule(seed: u64, run: u64, thorough: bool) -> Scenario {
     let mut texts = vec![];
     let mut docs = vec![];
     let mut doc_owner = vec![];
+    // one scenario in three: the other rules are twins of the first (one aspect altered
+    // throughout: case flags, case of the pattern text, nothing, integers) and all rules see all
+    // documents, also in the other case
+    let twins = or.chance(1, 3);
+    let mut first: Option<serde_yaml::Value> = None;
     for r in 0..nrules {
         let mut rr = Rng::stream(seed, run, &format!("RULE{}", r));
         let mut dr = Rng::stream(seed, run, &format!("DOCS{}", r));
-        let y = gen::gen_rule(&mut rr, &knobs);
+        let y = match (&first, twins) {
+            (Some(f), true) => gen::twin_rule(f, if or.chance(1, 2) { 0 } else { or.below(4) }),
+            _ => gen::gen_rule(&mut rr, &knobs),
+        };
         for d in gen::docs_for(&mut dr, &y, &knobs, 6) {
+            if twins && or.chance(1, 3) {
+                docs.push(gen::recase_doc(&d, or.chance(1, 2)));
+                doc_owner.push(r);
+            }
             docs.push(d);
             doc_owner.push(r);
         }
         texts.push(gen::rule_text(&y));
+        if first.is_none() {
+            first = Some(y);
+        }
     }
     let pick = |or: &mut Rng, r: usize| -> Op {
         // mostly the rule's own documents, sometimes another rule's
         let cands: Vec<usize> = (0..docs.len()).filter(|i| doc_owner[*i] == r).collect();
-        let i = if or.chance(4, 5) && !cands.is_empty() { *or.pick(&cands) } else { or.below(docs.len()) };
+        let own = if twins { or.chance(1, 2) } else { or.chance(4, 5) };
+        let i = if own && !cands.is_empty() { *or.pick(&cands) } else { or.below(docs.len()) };
         Op::Match(r * 10_000 + i)
     };
     let mut ops = vec![];
@@ -388,15 +404,16 @@ fn exec_hash(sc: &Scenario) -> Outcome {
     stats.seen("rule_shapes", shape);
     let t_start = std::time::Instant::now();
     let mut cut_short = false;
-    for sw in &sc.switch_sets {
+    let (plan_sw, plan_hs) = crate::exec::plan(sc);
+    for sw in &plan_sw {
         if cut_short {
             break;
         }
         let mut first: Option<(u64, String, Option<Vec<bool>>)> = None;
-        for h in &sc.hash_seeds {
+        for h in &plan_hs {
             // rules whose automata take long to build: stop exploring after a few seconds (a
             // scenario must stay far below the hang watchdog)
-            if t_start.elapsed().as_secs() >= 4 {
+            if t_start.elapsed().as_secs() >= crate::exec::BACKSTOP_S {
                 if !cut_short {
                     stats.inc("heavy_scenarios_cut_short");
                 }
@@ -932,8 +949,16 @@ fn exec_process(sc: &Scenario) -> Outcome {
     };
     stats.add("process_digests_compared", 2 * n);
     for (run, da) in &asc {
+        if *da == crate::exec::CUT_DIGEST {
+            stats.inc("process_digests_not_comparable");
+            continue;
+        }
         d.u64(*da);
         for (label, other) in [("descending order", &desc), ("4 parallel workers", &par)] {
+            if other.get(run) == Some(&crate::exec::CUT_DIGEST) {
+                stats.inc("process_digests_not_comparable");
+                continue;
+            }
             if other.get(run) != Some(da) {
                 push_violation(
                     &mut vs,
